@@ -96,6 +96,26 @@ def oracle(tier, rng, deep=False):
             gi2 = np.concatenate(groups).astype(np.int32)
             wg2, bg2, _, _ = sl.run_group("GroupBCD", rng, np.asfortranarray(X), y, "Quadratic", gp2, gi2, a, gw[gperm], False, dict(tol=tol, fit_intercept=fi, max_iter=2000, max_epochs=1000))
             cmp("group-permutation:GroupBCD", wg2, wg, dict(inp, gperm=gperm, grp_ptr=gp.tolist(), grp_indices=gi.tolist()))
+            # feature relabelling with scattered groups and feature weights (sparse-group lasso, GroupBCD): relabel the features so
+            # that the groups become contiguous; the solution must be the relabelled one
+            if p >= 3:
+                order = list(range(p)); rng.shuffle(order)                       # order[k] = old index of new feature k
+                sizes = []
+                left = p
+                while left > 0:
+                    sz = rng.randint(1, min(3, left)); sizes.append(sz); left -= sz
+                gpS = np.cumsum([0] + sizes).astype(np.int32)
+                giS = np.array(order, dtype=np.int32)                            # scattered: group g = order[gpS[g]:gpS[g+1]]
+                wfS = np.array([rng.choice([0.25, 0.5, 1.0, 2.0]) for _ in range(p)])
+                wgS = np.array([rng.choice([0.5, 1.0, 2.0]) for _ in range(len(sizes))])
+                aS = a * 0.5
+
+                def sgl_solve(Xm, gi_, wf_):
+                    df_ = cc(sd.QuadraticGroup(gpS, gi_)); pen_ = cc(sp.WeightedL1GroupL2(aS, wgS, wf_, gpS, gi_))
+                    return ss.GroupBCD(tol=tol, fit_intercept=False, max_iter=2000, max_epochs=1000).solve(np.asfortranarray(Xm), y, df_, pen_)[0]
+                wA = sgl_solve(X, giS, wfS)
+                wB = sgl_solve(X[:, order], np.arange(p, dtype=np.int32), wfS[order])
+                cmp("feature-relabelling:GroupBCD:WeightedL1GroupL2", wB, wA[order], dict(inp, order=order, sizes=sizes, weights_features=wfS.tolist(), weights_groups=wgS.tolist(), alpha=aS))
             # task permutation (MultiTaskBCD)
             T = 3
             Y = np.column_stack([y, X[:, 0] - y, 0.5 * y + X[:, 1]])
